@@ -354,7 +354,7 @@ def run(ctx):
     c03.check_profile(ctx, rule_prefix='C01', only_ends=True)
     from . import c10
     c10.check_dispatcher(ctx)       # fixed points are selected by the neighbour search (structural table only; C10)
-    c10.check_scans(ctx)
+    c10.check_scans(ctx, fill_true_only=True)
     ctx.trust('field axioms over the reals; Sum is linear; floating-point rounding not modelled',
               'installed numpy/scipy namespaces and signatures (inspect.signature)')
     ctx.assume('strictly increasing x; selected fixed points are distinct and leave an interior sample (property precondition)',
